@@ -35,6 +35,8 @@ func init() {
 	})
 	Impl("dialects.unmarshal", func(a []Val) Val {
 		d := dialects.NewDialects()
+		d.AddDialect("LEFT OVER 1") // a receiver that already holds a list: Unmarshal replaces it
+		d.AddDialect("LEFT OVER 2")
 		n, err := d.Unmarshal(exact(a[0].B))
 		if err != nil {
 			return VErr()
